@@ -112,6 +112,32 @@ def check(prog, run):
                 else:
                     run.ok("sense-error-constructible-and-printable", c + (" print_data" if show else ""), nontrivial=False)
     run.count("short_sense_cases", nshort)
+    # two errors alive at once (one kept from an earlier command, one raised now): what the first reports must be its own --
+    # no mutable object may be common to both (they would show each other's sense key), nor come from import time
+    for rc_a, rc_b in ((0x70, 0x70), (0x70, 0x71), (0x72, 0x72), (0x72, 0x73), (0x70, 0x72)):
+        def th2(rc_a=rc_a, rc_b=rc_b):
+            ea = I.instantiate(cls, [Buf(cells=[rc_a] + [mem_byte("senseA", (None, i)) for i in range(1, 32)])], {}, None, _F())
+            eb = I.instantiate(cls, [Buf(cells=[rc_b] + [mem_byte("senseB", (None, i)) for i in range(1, 32)])], {}, None, _F())
+            return ea, eb
+        ps2 = [p for p in I.explore(th2, max_paths=64) if p.returned]
+        c = "two SCSICheckCondition objects, response codes %#x and %#x" % (rc_a, rc_b)
+        shared = None
+        for p in ps2:
+            ea, eb = p.value
+            if isinstance(ea, Instance) and isinstance(eb, Instance):
+                for ka, va in ea.attrs.items():
+                    if isinstance(va, (dict, list, set, Buf)):
+                        if id(va) in I.static_ids:
+                            continue            # a class- or module-level table both refer to (layouts, texts): not per-error state
+                        for kb, vb in eb.attrs.items():
+                            if va is vb:
+                                shared = (ka, kb, "one object for both errors")
+        if shared:
+            run.violation("errors-do-not-share-state", c,
+                          "the first error's .%s and the second error's .%s are %s: an error kept from an earlier command shows "
+                          "what a later one decoded" % shared, file, init.node.lineno, cls.qualname)
+        elif ps2:
+            run.ok("errors-do-not-share-state", c)
     stale_prints, fresh_prints = {}, set()
     for show in (False, True):
         def th(show=show):
